@@ -419,6 +419,14 @@ def rule_R(toks, au, opts=None):
         au.note("R", "std::io:: -> io:: (shim module)")
         toks[i + 3].ws = toks[i].ws
         del toks[i:i + 3]
+    # std::net::X -> X  (shim address types)
+    while True:
+        i = find_seq(toks, ["std", ":", ":", "net", ":", ":"])
+        if i < 0:
+            break
+        au.note("R", "std::net:: -> shim address types")
+        toks[i + 6].ws = toks[i].ws
+        del toks[i:i + 6]
     out, i = [], 0
     n = len(toks)
     while i < n:
